@@ -311,3 +311,13 @@ def check(facts, rep, tier, cfg):
             rep.ok("C01.R4", i["key"], i["where"], i["detail"])
         for v in sub.violations:
             rep.bad("C01.R4", v["key"].split("/", 1)[1], v["where"], v["msg"])
+    # the stream<->socket bridge used at both ends does not lose bytes on a short write (= C13.R4)
+    mux = facts.crate("penguin_mux")
+    if mux is not None:
+        import rules_c13
+        rep.rule("C01.R6", "bridge (both ends of every tunnel): bytes consumed from the stream = bytes the socket accepted (= C13.R4 consume-written-amount)")
+        bodies = rules_c13.bridge_bodies(mux)
+        if bodies:
+            rules_c13.check_r4_written_amount(facts, rep, bodies, rid="C01.R6")
+        elif "tokio-io-util" in mux.features or "std" in mux.features:
+            rep.bad("C01.R6", "floor/bridge", "", "no bridge poll functions found in penguin_mux (anchor missing)")
